@@ -32,7 +32,7 @@ pub fn frag_seq(args: &[&str]) -> String {
     let timeout = if args[1] == "z" {
         Duration::from_secs(0)
     } else if args[1] == "m" {
-        Duration::from_millis(150)
+        Duration::from_millis(500)
     } else {
         Duration::from_secs(3600)
     };
@@ -48,7 +48,7 @@ pub fn frag_seq(args: &[&str]) -> String {
                 }
             } else if op == "w" {
                 // a wait longer than the medium lifetime (mode m)
-                std::thread::sleep(Duration::from_millis(300));
+                std::thread::sleep(Duration::from_millis(1000));
                 out.push("w".to_string());
             } else {
                 std::thread::sleep(Duration::from_micros(50));
